@@ -396,6 +396,24 @@ func (s *Sess) genOp() *Op {
 		} else {
 			op.Name2 = s.name()
 		}
+		if r.Intn(10) == 0 {
+			// '.'/'..' as the new name, preferably of an empty directory and
+			// with a directory as the source (then source and "target" have
+			// the same kind and the target is empty)
+			op.Name2 = r.PickS([]string{".", ".", ".."})
+			for _, o := range s.m.LiveObjs() {
+				if o.Kind == KDir && len(o.Ents) == 0 && o.FH != nil && r.Intn(2) == 0 {
+					op.H2 = o.FH
+				}
+			}
+			if d := s.m.Obj(op.H); d != nil && d.Kind == KDir {
+				for n, id := range d.Ents {
+					if s.m.Objs[id].Kind == KDir && s.m.Objs[id].FH != nil && string(s.m.Objs[id].FH) != string(op.H2) {
+						op.Name = n
+					}
+				}
+			}
+		}
 		s.avoidKnownRename(op)
 	case OpLink:
 		op.H = s.handleFor(KReg)
@@ -762,7 +780,7 @@ func runSeq(p Profile, seed uint64, cas int) *SeqRes {
 	}
 	for i := 0; i < p.NOps && !s.stop; i++ {
 		var op *Op
-		if p.NearFull && (p.AfterFail || p.TwinEvery > 0 || p.FsckEvery == 1) && rng.Intn(5) < 2 {
+		if p.NearFull && (p.AfterFail || p.TwinEvery > 0 || p.FsckEvery > 0) && rng.Intn(5) < 2 {
 			op = s.genSteer()
 		} else if p.Recycle && rng.Intn(3) == 0 {
 			op = s.genRecycle()
@@ -1139,7 +1157,27 @@ func (s *Sess) genSteer() *Op {
 		return s.genOp()
 	}
 	// 1..3 free blocks: requests that need one block more than there is
-	switch r.Intn(7) {
+	holey := func() *MObj { // a file whose indirect range is (partly) a hole
+		var c []*MObj
+		for _, o := range s.m.LiveObjs() {
+			if o.Kind == KReg && o.FH != nil && o.Size > 9*BlockSize && o != filler {
+				c = append(c, o)
+			}
+		}
+		if len(c) == 0 {
+			return nil
+		}
+		return c[r.Intn(len(c))]
+	}
+	switch r.Intn(9) {
+	case 7, 8: // READ of a hole beyond the direct blocks: index block(s) + data block
+		if o := holey(); o != nil {
+			off := 8*BlockSize + r.U64()%(o.Size-8*BlockSize)
+			return &Op{K: OpRead, H: o.FH, Off: off, Count: r.PickU32([]uint32{1, 4096, 20000})}
+		}
+		if o := small(); o != nil {
+			return &Op{K: OpSetattr, H: o.FH, SetSize: true, Size: uint64(9+r.Intn(1200)) * BlockSize}
+		}
 	case 0, 1: // first write into the indirect range of a small file: indirect block + data block
 		if o := small(); o != nil {
 			s.nextUid++
